@@ -182,6 +182,25 @@ def run(pid, tier, seed, replay=None):
          stdout_path=trace_big)
 
     traces = [trace_b, trace_c, trace_c3, trace_big]
+    trace_deep = None
+    if pid == "C09":
+        # one episode with a chain of 520 instances: moves of the top of the chain under instances hundreds of levels
+        # below it must be refused (the walk up the ancestors has no depth limit), then a legal move of the bottom
+        n_deep = 520
+        node = lambda pi, label: {"pi": pi, "label": label, "refp": [-1], "uid": 0}
+        dops = [{"op": "new", "d": 1, "b": [node(0, 1)]}, {"op": "new", "d": 2, "b": [node(0, 2)]},
+                {"op": "insert", "d": 1, "p": 1, "b": [node(0, 100)] + [node(i, 100 + i) for i in range(1, n_deep)]},
+                {"op": "transfer_within_bad", "d": 1, "r": 3, "p": n_deep + 2},
+                {"op": "transfer_within_bad", "d": 1, "r": 3, "p": 3 + 513},
+                {"op": "transfer_within_bad", "d": 1, "r": 4, "p": 4 + 300},
+                {"op": "transfer_within", "d": 1, "r": n_deep + 2, "p": 1}]
+        deep_ops = os.path.join(OUT, "%s_deep_ops.ndjson" % pid)
+        with open(deep_ops, "w") as f:
+            f.write(json.dumps({"ep": "deep:1", "ops": dops}) + "\n")
+        trace_deep = os.path.join(OUT, "%s_deep_trace.ndjson" % pid)
+        rbxv(["dom-run", "--maxref", n_deep + 10, "--slots", 1], stdin_path=deep_ops, stdout_path=trace_deep)
+        os.remove(deep_ops)
+        traces.append(trace_deep)
     if pid == "C12":
         # reader paths: DOMs produced by the binary and XML readers from files with duplicate UniqueIds
         trace_d = os.path.join(OUT, "%s_decoded_trace.ndjson" % pid)
@@ -194,6 +213,9 @@ def run(pid, tier, seed, replay=None):
     cfg_big = os.path.join(OUT, "WeakDomTraceBig.cfg")
     write_cfg(cfg_big, "TraceSpec", dict(MaxRef=90, NumDoms=2, NumSlots=1),
               invariants="WellFormed UidDistinct UidSetExact UidSeen")
+    cfg_deep = os.path.join(OUT, "WeakDomTraceDeep.cfg")
+    write_cfg(cfg_deep, "TraceSpec", dict(MaxRef=530, NumDoms=2, NumSlots=1),
+              invariants="WellFormed UidDistinct UidSetExact UidSeen")
     cfg3 = os.path.join(OUT, "WeakDomTrace3.cfg")
     write_cfg(cfg3, "TraceSpec", dict(MaxRef=20, NumDoms=2, NumSlots=3),
               invariants="WellFormed UidDistinct UidSetExact UidSeen")
@@ -201,7 +223,7 @@ def run(pid, tier, seed, replay=None):
     nontrivial = set()
     others = 0
     for trace in traces:
-        res = validate_trace("WeakDomTrace", cfg3 if trace == trace_c3 else cfg_big if trace == trace_big else cfg, trace)
+        res = validate_trace("WeakDomTrace", cfg3 if trace == trace_c3 else cfg_big if trace == trace_big else cfg_deep if trace == trace_deep else cfg, trace)
         total_events += res["events"]
         total_eps += res["episodes"]
         for shard, text, tail in res["violations"]:
